@@ -47,6 +47,18 @@ def pa_s(sT):
     return sorted(set([0, 1, 2, 3, 7, max(1, 8192 // sT)]))
 
 
+STL_PA = [(4, 4, 8), (1, 1, 7), (12, 4, 3), (24, 8, 1), (16, 16, 4), (64, 64, 2), (100, 4, 2), (32, 32, 5)]
+STL_SYS = [(4, 4), (8, 8), (24, 8), (16, 16), (3, 1)]
+STL_AL = [(8, 8, 64), (16, 16, -1), (64, 64, -1), (12, 4, 32)]
+BIG_CFG = ["POOL(8,8,1048576)", "PA(4,4,100000)"]      # chunks of 1 MiB / 400 kB
+
+
+def list_node_layout(sT, aT):
+    """sizeof / alignof of libstdc++'s std::_List_node<T> (two pointers + aligned storage for T); checked by the harness"""
+    al = max(8, aT); off = (16 + aT - 1) // aT * aT
+    return (off + sT + al - 1) // al * al, al
+
+
 EXH_CFG = [("pool", 4, 4, 0), ("pool", 4, 4, 16), ("pool", 12, 4, 41), ("pa", 1, 1, 7), ("pool", 100, 4, 7), ("pa", 64, 64, 2),
            ("pool", 8, 8, 1024)]
 
@@ -62,7 +74,7 @@ def config_lines():
         lines.append("SYS(%d,%d)" % (sT, aT))
     for sT, aT, al in ALIGNED:
         lines.append("ALIGNED(%d,%d,%d)" % (sT, aT, al))
-    return lines
+    return lines + BIG_CFG
 
 
 def config_of(case):
@@ -98,7 +110,8 @@ def write_configs(ctx):
     san = [l for i, l in enumerate(lines) if not ctx.quick or i % 4 == 0 or l in exh or l.startswith("SYS") or l.startswith("ALIGNED")]
     parts = [lines[k::NPART] for k in range(NPART)]
     sparts = [san[k::NPART_SAN] for k in range(NPART_SAN)]
-    files = [("configs_p%d.inc" % k, ls) for k, ls in enumerate(parts)] + [("configs_san%d.inc" % k, ls) for k, ls in enumerate(sparts)] + \
+    stl = ["STLPA(%d,%d,%d)" % c for c in STL_PA] + ["STLSYS(%d,%d)" % c for c in STL_SYS] + ["STLAL(%d,%d,%d)" % c for c in STL_AL]
+    files = [("configs_stl.inc", stl)] + [("configs_p%d.inc" % k, ls) for k, ls in enumerate(parts)] + [("configs_san%d.inc" % k, ls) for k, ls in enumerate(sparts)] + \
             [("configs_keep.inc", [l for l in lines if l.startswith("SYS")])]
     for name, ls in files:
         txt = "\n".join(ls) + "\n"
@@ -222,7 +235,7 @@ def decorate_pool(rng, ops, pa, rate=0.08):
     out, nlive = [], 0
     for t in ops:
         if rng.random() < rate:
-            c = rng.choice(["x", "y"] + (["k0", "k1", "k2", "z", "amax"] if pa else []))
+            c = rng.choice(["x", "y"] + (["k0", "k1", "k2", "k3", "z", "amax"] if pa else []))
             if c == "z":
                 if nlive:
                     out.append("z%d.0" % rng.randrange(nlive))
@@ -299,7 +312,7 @@ def gen(ctx):
                 k = min(el, 40)
                 # fill two chunks (+1), free everything FIFO, refill: reuse order, chunk crossing
                 fill = ["a1"] * (2 * k + 1)
-                sc = fill + ["f0"] * (2 * k + 1) + ["a1"] * (k + 1) + ["a0", "a2", "x", "y"] + (["k0", "z0.0", "k2", "a%d" % SIZE_MAX, "k1", "z0.1", "a1"] if kind == "pa" else [])
+                sc = fill + ["f0"] * (2 * k + 1) + ["a1"] * (k + 1) + ["a0", "a2", "x", "y"] + (["k0", "z0.0", "k2", "a%d" % SIZE_MAX, "k1", "z0.1", "a1", "k3", "a1", "f0"] if kind == "pa" else [])
                 cases.append("%s %d %d %d %s" % (kind, sT, aT, s, " ".join(sc)))
                 for w in range(nwalk):
                     L = rng.choice([20, 60, 150] if quick else [30, 100, 250, 500])
@@ -409,6 +422,45 @@ def gen(ctx):
                         ops.append("E%d.%d" % (rng.randrange(nal), rng.randrange(nal)))
                 cases.append("multi %d %d %d %s" % (sT, aT, sN, " ".join(ops)))
     cases.append("multi 12 4 2 A0.1 C0 A1.1 E0.1 E1.1 V1.0.0 V0.0.0 F1.0 C1 A2.1 A2.1 A2.1 V0.2.1 E2.2 E0.2")
+    # --- the allocators in their real role: std::list (all four) / std::vector (malloc, aligned, debug) through std::allocator_traits
+    def stl_walk(L, movable):
+        ops, sz = [], 0
+        for _ in range(L):
+            z = rng.random()
+            if z < 0.45 or sz == 0:
+                ops.append("p%d" % rng.randrange(1, 250)); sz += 1
+            elif z < 0.58:
+                ops.append("q"); sz -= 1
+            elif z < 0.70:
+                ops.append("e%d" % rng.randrange(sz)); sz -= 1
+            elif z < 0.80:
+                ops.append("i%d.%d" % (rng.randrange(sz + 1), rng.randrange(1, 250))); sz += 1
+            elif z < 0.84:
+                ops.append("c"); sz = 0
+            elif z < 0.91:
+                ops.append("y")
+            elif not movable:
+                ops.append("y")      # PoolAllocator: copy construction only (a copied PoolAllocator never compares equal: assignment / move are outside its contract)
+            elif z < 0.96:
+                ops.append("g")
+            else:
+                ops.append("m")
+        return ops
+    nst = 2 if quick else 10
+    for sT, aT, sN in STL_PA:
+        nS, nA = list_node_layout(sT, aT)
+        cases.append("stl pa list %d %d %d %d %d p1 p2 p3 y y q q q q p4 c p5 y" % (sT, aT, sN, nS, nA))
+        for w in range(nst):
+            cases.append("stl pa list %d %d %d %d %d %s" % (sT, aT, sN, nS, nA, " ".join(stl_walk(rng.choice([15, 50]), False))))
+    for what, cfgs in (("malloc", [(a, b, 0) for a, b in STL_SYS]), ("debug", [(a, b, 0) for a, b in STL_SYS]), ("aligned", STL_AL)):
+        for sT, aT, par in cfgs:
+            nS, nA = list_node_layout(sT, aT)
+            for cont in ("list", "vector"):
+                for w in range(nst):
+                    cases.append("stl %s %s %d %d %d %d %d %s" % (what, cont, sT, aT, par, nS, nA, " ".join(stl_walk(rng.choice([15, 50]), True))))
+    # --- large chunks (1 MiB / 400 kB): geometry and the first slots only
+    cases.append("pool 8 8 1048576 " + " ".join(["a1"] * 50 + ["f0"] * 25 + ["a1"] * 30 + ["x", "a2"]))
+    cases.append("pa 4 4 100000 " + " ".join(["a1"] * 50 + ["f3"] * 25 + ["a1"] * 30 + ["k0", "a0", "k3", "a1"]))
     # --- plain interface: max_size(), operator== / != (all overloads), rebind, PoolAllocator<void,s>
     for sT, aT in TYPES:
         for sN in pa_s(sT):
@@ -438,12 +490,12 @@ def case_parts(case):
     kind = t[0]
     if kind == "api":
         return kind, t[1:], []
-    npar = {"pool": 3, "pa": 3, "malloc": 2, "aligned": 3, "debug": 3, "dman": 3, "debugkeep": 3, "isaligned": 2, "alignedbase": 3, "multi": 3}[kind]
+    npar = {"pool": 3, "pa": 3, "malloc": 2, "aligned": 3, "debug": 3, "dman": 3, "debugkeep": 3, "isaligned": 2, "alignedbase": 3, "multi": 3, "stl": 0}[kind]
     return kind, [int(x) for x in t[1:1 + npar]], t[1 + npar:]
 
 
 DEBUG_KINDS = ("debug", "dman", "debugkeep")
-NOSCRIPT = ("isaligned", "alignedbase", "api", "multi")
+NOSCRIPT = ("isaligned", "alignedbase", "api", "multi", "stl")
 
 
 def succeeds_fn(kind, par):
@@ -463,6 +515,9 @@ def sig_of(case, impl_line, verdict):
         return "C15:api:%s" % par[0]
     if kind == "alignedbase":
         return "C15:alignedbase:mode%d" % par[2]
+    if kind == "stl":
+        t = case.split(); fl = re.search(r"!([a-z-]+)", verdict)
+        return "C15:stl:%s:%s:%s" % (t[1], t[2], fl.group(1) if fl else "crash" if "incomplete" in verdict else "chunks" if "chunk" in verdict else "contents")
     if kind == "multi":
         fl = re.search(r"!([a-z-]+)", verdict)
         return "C15:multi:" + (fl.group(1) if fl else "not-refused" if "not refused" in verdict else "operator-eq" if "operator==" in verdict
@@ -523,10 +578,10 @@ def build(ctx, san=True):
     """returns (impls, impls_san, ncfg): impls = {"parts": [(exe, configs)], "keep": exe}"""
     ncfg, parts, sparts = write_configs(ctx)
     inc = "-I" + ctx.build
-    jobs = [dict(srcs=[H], out=ctx.path("impl_p%d" % k), opt="-O1", flags=[inc, '-DCONFIGS_INC="configs_p%d.inc"' % k], repo_srcs=REPO_SRCS) for k in range(NPART)]
+    jobs = [dict(srcs=[H], out=ctx.path("impl_p%d" % k), opt="-O1", flags=[inc, '-DCONFIGS_INC="configs_p%d.inc"' % k] + (["-DC15_WITH_STL"] if k == 0 else []), repo_srcs=REPO_SRCS) for k in range(NPART)]
     jobs.append(dict(srcs=[H], out=ctx.path("impl_keep"), opt="-O1", flags=[inc, '-DCONFIGS_INC="configs_keep.inc"', "-DDEBUG_ALLOCATOR_KEEP=1"], repo_srcs=REPO_SRCS))
     if san:
-        jobs += [dict(srcs=[H], out=ctx.path("impl_san%d" % k), san=True, opt="-O0", flags=[inc, '-DCONFIGS_INC="configs_san%d.inc"' % k], repo_srcs=REPO_SRCS)
+        jobs += [dict(srcs=[H], out=ctx.path("impl_san%d" % k), san=True, opt="-O0", flags=[inc, '-DCONFIGS_INC="configs_san%d.inc"' % k] + (["-DC15_WITH_STL"] if k == 0 else []), repo_srcs=REPO_SRCS)
                  for k in range(NPART_SAN)]
     outs = V.cxx_many(ctx, jobs)
     impls = {"parts": list(zip(outs[:NPART], parts)), "keep": outs[NPART]}
@@ -688,9 +743,9 @@ def run(ctx):
                                                      "case": c[:4000], "impl": a[:4000], "model": mm[:4000], "oracle": "accepts impl output"}, found_input=False)
     # sanitizer build: pool / malloc / debug / isaligned cases (aligned_alloc with size not a multiple of the alignment is rejected by ASan itself)
     # (UBSan itself stops deallocate(nullptr) of the debug allocator at the pointer arithmetic: those cases stay with the plain build)
-    sub = [i for i, c in enumerate(cases) if not c.startswith("aligned") and not c.startswith("debugkeep")
+    sub = [i for i, c in enumerate(cases) if not c.startswith("aligned") and not c.startswith("debugkeep") and not c.startswith("api aligned")
            and not (c.split()[0] in DEBUG_KINDS and c.endswith(" x"))
-           and (c.startswith("isaligned") or config_of(c) in sancfg)][::(2 if ctx.quick else 1)]
+           and (c.startswith("isaligned") or (c.startswith("stl") and not c.startswith("stl aligned")) or config_of(c) in sancfg)][::(2 if ctx.quick else 1)]
     so = run_impl(ctx, impl_san, [cases[i] for i in sub], "san", timeout=300 if ctx.quick else 1500, env=SAN_ENV)
     nsan = 0
     dif = [(i, so[j]) for j, i in enumerate(sub) if j < len(so) and so[j] != io[i]]
